@@ -63,6 +63,8 @@ Items1 == {Item(F, ch, <<Values[i]>>) : ch \in Chains, i \in 1..Len(Values)}
           \* a regular expression that a further modifier extends AFTER the placeholders were inserted (and before)
           \cup {Item(F, ch, <<Values[i]>>) : i \in {1, 2, 3, 4, 6}, ch \in {<<N_re, N_expand, N_startswith>>, <<N_re, N_expand, N_endswith>>,
                                                                          <<N_re, N_expand, N_contains>>, <<N_re, N_startswith, N_expand>>}}
+          \* regular expressions WITH flags, the flag modifier before or after the expansion
+          \cup {Item(F, ch, <<Values[i]>>) : i \in {1, 2, 4}, ch \in {<<N_re, N_i, N_expand>>, <<N_re, N_expand, N_i>>, <<N_re, N_m, N_s, N_expand>>}}
           \cup {Item(F, <<N_expand>>, <<Values[1], Values[10]>>)}
 Cases == {[doc |-> Doc(it), pipe |-> p, vars |-> t, sw |-> s] : it \in Items1, p \in Pipelines, t \in Tables, s \in BOOLEAN}
 ASSUME LET A == SetToSeq(Cases)
